@@ -578,8 +578,10 @@ def replay(ctx, path):
     import json
     obj = json.load(open(path))
     if obj["replay"].get("kind") == "system-conditional":
-        print("running server, conditional request:", obj["replay"].get("why")); print("(re-run ./check C15 with the same VERIF_SEED to reproduce against the current tree)")
-        return 1
+        print("recorded:", obj["replay"].get("why")); print("running the conditional-request pass on the server of the current tree again")
+        bad = run_system_conditional(ctx)
+        import shutil; shutil.rmtree(ctx.scratch, ignore_errors=True)
+        return 1 if bad else 0
     case = obj["replay"].get("case")
     exe = vlib.cc_harness(ctx, "range_h", link_srcs=LINK)
     model = vlib.model_driver("C15")
